@@ -51,6 +51,17 @@ for _pid, _tech, _txt in [
     CLAIMED[_pid] = dict(technique=_tech, text=_txt, note=TRUST, ref="DESIGN.md §6 " + _pid,
                          engine="Explore+pathdriver" if _pid in ("C13", "C14", "C15", "C19") else ("AtomicSeq replayer" if _pid == "C12" else "LoomSem+interpreter"))
 
+CLAIMED["C06"] = dict(
+    technique="crash-point enumeration: a panic at every instruction index of every thread (also guarded by loaded values); TLC (LoomSem with the Panic action) decides for each whether a failure is reachable; the real run is observed from outside the driver child process",
+    text="For ~16 base programs covering the situations in which a panic can strike (locks held, threads blocked in recv/join/park/condvar, loom Arc in a frame / in a not-yet-started thread's closure, Track, Receiver, thread-locals, lazy statics) a panic is inserted at every instruction of every thread; Builder::check must unwind with that panic iff TLC reaches it, return normally otherwise, never abort or hang the process, and a probe model run afterwards in the same process must reproduce its solo result exactly.",
+    note=TRUST + " Why a destructor aborts is outside any state machine: the spec contributes the complete crash-point enumeration and the expected verdicts, the observation is process-level.",
+    ref="DESIGN.md §6 C06", engine="LoomSem+interpreter")
+CLAIMED["C16"] = dict(
+    technique="trace validation of every iteration from the spec's Init (LoomSemTrace reset) + equality of the full (path snapshot, outcome) sequence of a program alone / after other (failing) models / alongside another model on a second OS thread",
+    text="12 base programs touching every kind of per-execution state x 7 disturbers (4 of them failing and leaving state behind): every iteration must be a behaviour of LoomSem started from Init, and the base program's recorded sequence must be identical in a fresh process, after the disturber in the same process, and concurrently with another model.",
+    note=TRUST + " Cross-OS-thread interference is sampled by repetition, not enumerated.",
+    ref="DESIGN.md §6 C16", engine="LoomSem+interpreter")
+
 PENDING = "check not built yet (crash-point / isolation families in progress; see DESIGN.md §10 build order)"
 
 def main():
